@@ -13,7 +13,7 @@ from ._base import standard_run, standard_worker
 PROP = "C02"
 RULE = (
     "Hypothesis draws expression lists (1-4 expressions over shared axes: flattening, nesting, concatenation, brackets, "
-    "numbers, ellipsis families incl. '(s ds)...' pairs), marks each tensor shape as known or unknown (None), computes the "
+    "numbers, ellipsis families incl. '(s ds)...' and '[s ds]...' pairs), marks each tensor shape as known or unknown (None), computes the "
     "minimal keyword set by unit propagation and then applies a variant: minimal / one needed size removed / redundant sizes "
     "/ one size contradicted / a size breaking divisibility / one dimension changed / scalar-vs-tuple ellipsis sizes; a "
     "'large' class scales lengths so that products and sums cross 2**31 and 2**32 (shapes passed as objects exposing "
@@ -52,6 +52,8 @@ def c02_case(draw, tier="quick"):
         s_ = ctx.new_family(k=k)
         d_ = ctx.new_family(k=k)
         pair = (s_, d_)
+    # the pair may live in brackets: "[s ds]..." repeats a two-axis group, "[s]..." / "[ds]..." elsewhere
+    pair_br = pair is not None and draw(st.integers(0, 2)) == 0
     exprs = []
     quadratic = draw(st.integers(0, 11)) == 0
     if quadratic:
@@ -71,7 +73,14 @@ def c02_case(draw, tier="quick"):
             us.append(("leaf", ctx.new_num(draw(st.sampled_from(G.LENS))), False))
         if pair is not None and draw(st.booleans()):
             mode = draw(st.sampled_from(["flat", "split", "s_only"]))
-            if mode == "flat":
+            if pair_br:
+                if mode == "flat":
+                    us.insert(draw(st.integers(0, len(us))), ("fam2b", pair[0], pair[1], True))
+                else:
+                    us.insert(draw(st.integers(0, len(us))), ("fam", pair[0], True, "plain"))
+                    if mode == "split":
+                        us.insert(draw(st.integers(0, len(us))), ("fam", pair[1], True, "plain"))
+            elif mode == "flat":
                 us.insert(draw(st.integers(0, len(us))), ("fam2", pair[0], pair[1], False))
             elif mode == "split":
                 us.insert(draw(st.integers(0, len(us))), ("fam", pair[0], False, "plain"))
@@ -109,7 +118,7 @@ def c02_case(draw, tier="quick"):
     if quadratic and draw(st.integers(0, 3)) > 0:
         minimal = {}  # leave the quadratic system to the solver
     nested_inner = None
-    if pair is not None and draw(st.booleans()):
+    if pair is not None and not pair_br and draw(st.booleans()):
         # print "(s ds)..." as "(s ds...)...": the inner ellipsis is unconstrained by ranks, its product plays the role of ds
         used_flat = any(it[0] == "ell" and it[1] and it[1][0][0] == "flat" and pair[1] in [l[1] for l, _ in X.walk_leaves(it[1])] for e in exprs for it in G.X_iter(e))
         only_there = all(
